@@ -273,6 +273,11 @@ def classify_crash(stderr_text, rc):
 
 
 # --------------------------------------------------------------------------- running
+def printable(text):
+    # violation details may quote payload bytes; keep the report lines plain text
+    return "".join(ch if (ch == "\n" or 32 <= ord(ch) < 127) else "\\x%02x" % (ord(ch) & 0xff) for ch in text)
+
+
 def known_findings():
     kf = []
     p = os.path.join(ROOT, "KNOWN_FINDINGS.txt")
@@ -631,8 +636,8 @@ def cmd_run(pid, tier, seed):
         path = write_replay(pid, vs[0], tier, seed)
         print("VIOLATION property=%s replay=%s" % (pid, path))
         print("  key=%s cases=%d first: case %d (%s/%s) %s" % (key, len(vs), vs[0]["case"], vs[0]["engine"], vs[0]["variant"],
-                                                             vs[0].get("desc", "")[:300]))
-        print("  " + vs[0].get("detail", "")[-1500:].replace("\n", "\n  "))
+                                                             printable(vs[0].get("desc", "")[:300])))
+        print("  " + printable(vs[0].get("detail", "")[-1500:]).replace("\n", "\n  "))
         rc = 1
 
     # vacuity
